@@ -23,7 +23,7 @@ def _body(cs, n, susp, j, k):
     use_lock = P("lock", True)
     items = [Item(0, "0.%d" % i) for i in range(n)]
     W = World("a", susp=susp)
-    lock = Lock(W, enter_susp=P("lock_susp", 0)) if use_lock else None
+    lock = Lock(W, enter_susp=P("lock_susp", 0), exit_susp=P("lock_exit_susp", 0)) if use_lock else None
     src = W.source(items, P("fl", "acls"))
     st = W.srcs[0]
     t = A.tee(src, C, lock=lock) if use_lock else A.tee(src, C)
@@ -131,6 +131,8 @@ def jobs(tier):
         add(C=2, N=2, SUSP=2, lock=True, pause=0, fl=fl)
         add(C=2, N=2, SUSP=1, lock=True, pause=1, fl=fl, lock_susp=0)
         add(C=2, N=(1 if q else 2), SUSP=1, lock=True, pause=0, fl=fl, lock_susp=1)
+        add(C=2, N=2, SUSP=0, lock=True, pause=0, fl=fl, lock_exit_susp=1)
+        add(C=2, N=(1 if q else 2), SUSP=1, lock=True, pause=0, fl=fl, lock_exit_susp=1)
         add(C=3, N=(1 if q else 2), SUSP=1, lock=True, pause=0, fl=fl)
         # without lock: only non-suspending sources (the property's own condition)
         add(C=2, N=(2 if q else 3), SUSP=0, lock=False, pause=1, fl=fl)
@@ -150,7 +152,7 @@ def jobs(tier):
 
 
 BOUNDS = {
-    "quick": "all interleavings (symbolic choice vector, every suspension point a scheduling point) of 2..3 consumers; source length 0..2, 0..2 suspensions per source item, consumer pause 0..1, lock present (incl. suspending acquire) or absent (non-suspending sources only), child 0 closed after j<=2 items, last consumer cancelled at its k-th suspension (k<=4); sources class-based and async generators",
+    "quick": "all interleavings (symbolic choice vector, every suspension point a scheduling point) of 2..3 consumers; source length 0..2, 0..2 suspensions per source item, consumer pause 0..1, lock present (incl. suspending acquire and suspending release) or absent (non-suspending sources only), child 0 closed after j<=2 items, last consumer cancelled at its k-th suspension (k<=4); sources class-based and async generators",
     "thorough": "additionally 4 consumers with length 1, 2 consumers with length 3",
 }
 OUTSIDE = ["4 consumers with length > 1, length 4, 3 consumers with length 2 and pause 1 (2*10^5 schedules)", "retention (weak references) is measured in C20", "more than one early close / cancellation per run"]
